@@ -1362,7 +1362,7 @@ def gen_sjson_case(rng):
 
 def edit_phase(ctx, rng):
     """One object observed, edited, observed again."""
-    for _ in range(ctx.budget(2800, 100000)):
+    for _ in range(ctx.budget(2800, 56000)):
         case = gen_edit_case(rng)
         execute(ctx, case)
         primed = any(st["pre"] for st in case["steps"])
@@ -1446,7 +1446,7 @@ def run(ctx):
         execute(ctx, case)
         ctx.case(case, True, sample=case if rng.random() < 0.02 else None, cls="alias shared-text" if shared else "alias")
     # 4c. JSON texts / database columns whose values are scalars
-    for _ in range(ctx.budget(900, 40000)):
+    for _ in range(ctx.budget(900, 18000)):
         case = gen_sjson_case(rng)
         execute(ctx, case)
         ctx.case(case, True, sample=case if rng.random() < 0.05 else None, cls="sjson " + case["route"])
